@@ -349,6 +349,17 @@ func (c *fctx) stmts(list []ast.Stmt, k *cont, n int) (string, error) {
 		return c.runCont(k, n)
 	}
 	s, rest := list[0], list[1:]
+	for _, id := range c.cfg.idioms {
+		bd := newBindings()
+		if matchStmts(parseTemplate(id.tmpl), []ast.Stmt{s}, bd) {
+			out, err := id.emit(c, bd, n)
+			if err != nil {
+				return "", err
+			}
+			r, err := c.stmts(rest, k, n)
+			return out + r, err
+		}
+	}
 	restK := k
 	if len(rest) > 0 {
 		restK = &cont{kind: "stmts", rest: rest, next: k}
@@ -1151,4 +1162,14 @@ func (c *fctx) closureLit(fl *ast.FuncLit, n int) (string, error) {
 		return "", err
 	}
 	return "(fun " + c.names[c.recv] + " => do\n" + body + ind(n) + ")", nil
+}
+
+// nameOf: the Lean name of the variable called `goName` in the Go source.
+func (c *fctx) nameOf(goName string) (string, error) {
+	for o, n := range c.names {
+		if o.Name() == goName {
+			return n, nil
+		}
+	}
+	return "", fmt.Errorf("idiom: no variable %s", goName)
 }
